@@ -1,4 +1,4 @@
 SPECIFICATION Spec
-CONSTANT Fixes = {}
+CONSTANT Fixes = {"D2", "D3"}
 POSTCONDITION Post
 CHECK_DEADLOCK FALSE
